@@ -218,8 +218,9 @@ def record_field_origins(prog, fn, v, _seen, depth):
         return None
     if (owner not in prog.adts and not owner.startswith('tuple(')) or depth > 4:
         return None
-    if prog.self_field(v) is not None or prog.node_field(v) is not None:
+    if prog.node_field(v) is not None:
         return None
+    # (a field of `self` qualifies when self is such a record: an iterator that keeps a handle between calls)
     writes = record_writes(prog).get((owner, v.fields()[-1]))
     if not writes:
         return None
